@@ -111,6 +111,10 @@ func (s *Script) Compile() (*Compiled, error) {
 	}
 
 	// reduce globals size
+	if symbolTable.MaxSymbols()+1 > len(globals) {
+		return nil, fmt.Errorf("too many global variables: %d (limit %d)",
+			symbolTable.MaxSymbols()+1, len(globals))
+	}
 	globals = globals[:symbolTable.MaxSymbols()+1]
 
 	// global symbol names to indexes
@@ -181,6 +185,10 @@ func (s *Script) prepCompile() (
 	}
 
 	globals = make([]Object, GlobalsSize)
+	if len(names) > len(globals) {
+		return nil, nil, fmt.Errorf("too many variables: %d (limit %d)",
+			len(names), len(globals))
+	}
 
 	for idx, name := range names {
 		symbol := symbolTable.Define(name)
